@@ -46,8 +46,11 @@ def run(ctx, out):
                 items.append(rng.choice(letters)[0])
             # a share of the scripts with every read of the client limited to 1, 2 or 7 bytes (short reads): same behaviour required
             k = rng.choice([0, 0, 0, 1, 2, 7])
+            # a share of those additionally with 6 / 61 virtual seconds passing before every piece (a reply that trickles in, with
+            # pauses inside its header and its body): a correct client simply waits — same events
+            tag = ("@%d" % k if k else "") + ("@%d" % rng.choice([6, 61]) if k and rng.random() < 0.4 else "")
             cmd = rng.choice(cmds)
-            ops.append(f"seq{'@%d' % k if k else ''} {s['name']} {cmd.hex()} " + ",".join(i.hex() for i in items))
+            ops.append(f"seq{tag} {s['name']} {cmd.hex()} " + ",".join(i.hex() for i in items))
             ev, done = G.expected_events(cmd, 3, sc, finals, once)
             want.append(" / ".join(ev + ["end"]))
     # the firmware upload loop (its own into_stream): every data request answered exactly once with the requested block
@@ -62,13 +65,15 @@ def run(ctx, out):
         out.count(o.split()[1] if o.startswith("seq") else "feig::sequences::WriteFile")
         if "@" in o.split()[0]:
             out.count("short-reads")
+        if o.split()[0].count("@") == 2:
+            out.count("short-reads-with-pauses")
         out.nontrivial.add(o)
         if r != w:
             i = next((j for j in range(min(len(r), len(w))) if r[j] != w[j]), min(len(r), len(w)))
             out.oracle_failures.append({"op": o[:400], "observed": "…" + r[max(0, i - 80):i + 160], "expected": "…" + w[max(0, i - 80):i + 160], "key": o[:200],
                                         "what": f"{o.split()[1] if o.startswith('seq') else 'feig::sequences::WriteFile'}: not (command once, ack read, each reply read-answered-yielded in order, end right after the first final packet, nothing read behind it)"})
     out.rule = (f"all {len(spec['sequences'])} `impl Sequence` exchanges x a pool of commands each (random canonical values, and all fields present with every number 0 / 1 / 2) x reply scripts over each command's reply alphabet (2 canonical packets per variant): bounded-exhaustive up to depth {depth} "
-                "(sampled to 300 prefixes per length when larger), random deeper scripts up to 13 replies, random bytes or whole packets queued behind the final packet; half of the scripts additionally with every read of the client limited to 1, 2 or 7 bytes; the ordered event log "
+                "(sampled to 300 prefixes per length when larger), random deeper scripts up to 13 replies, random bytes or whole packets queued behind the final packet; half of the scripts additionally with every read of the client limited to 1, 2 or 7 bytes, 40 % of those with 6 or 61 virtual seconds before every piece (pauses inside a packet); the ordered event log "
                 "(writes with bytes, reads with byte counts, yields, end) of the real into_stream against the scripted in-memory terminal equals the model's and the independently computed expectation. "
                 "Plus the firmware upload loop (WriteFile::into_stream): payload directories with several files x request walks over them (sequential, round-robin, continuing in another file) "
                 "ended by completion or abort with bytes queued behind: each request answered exactly once with the requested block of the requested file. non-trivial = distinct (sequence, script)")
